@@ -231,6 +231,16 @@ def main(argv=None):
     core.guarded(rep, text, check_model, rep, drv, gen, rng, m_, text, c_, fixed_points=pts)
     rep.case(key=text, nontrivial=True)
     rep.count("directed_equality_models")
+    # directed: Not / And / Or applied to numbers (relation-valued intermediates, a flag parameter)
+    text = open(str(core.VERIF / "corpus" / "C01" / "logical_operators_on_numbers.ode")).read()
+    c_ = pipeline.Case(drv, text)
+    if c_.err is None:
+        m_ = textmodel.model_from_items(c_.captured)
+        pts = [{"t": 0.0, "dt": 0.1, "states": {"x": sx, "y": sy}, "params": {"use": u_, "a": 1.5}}
+               for sx in (0.5, 2.0) for sy in (-1.0, 1.0) for u_ in (1.0, 0.0, 2.0)]
+        core.guarded(rep, text, check_model, rep, drv, gen, rng, m_, text, c_, fixed_points=pts)
+        rep.case(key=text, nontrivial=True)
+        rep.count("directed_logical_models")
     # directed: powers whose exponent is a parameter with an integer value (a Hill coefficient) and whose base takes either sign
     text = ("states(x=1, y=2)\nparameters(n=2, h=3)\nq = (x/2)**n + (-y)**h + (x*y)**n\ndx_dt = q - x\ndy_dt = (x - 1)**h/(1 + (x - 1)**n) - y\n")
     c_ = pipeline.Case(drv, text)
